@@ -1075,7 +1075,7 @@ def check_C12(ctx):
         for c in cases:
             f.write(c.line + '\n')
     configs = [(2, 20, 1), (8, 25, 4), (32, 10, 16)] if ctx.quick else \
-              [(g, r, p) for g in (2, 8, 32) for r in (5, 30) for p in (1, 4, 16)] + [(8, 150, 16), (32, 150, 4), (2, 150, 1)]
+              [(g, 8, p) for g in (2, 8, 32) for p in (1, 4, 16)] + [(8, 40, 16), (32, 40, 4), (2, 20, 1)]
     races = 0
     runs = []
     for (g, r, p) in configs:
